@@ -63,6 +63,16 @@ def strategy(tier):
     return st.builds(lambda init, ops: {"init": init, "ops": ops}, st.lists(IDX, min_size=3, max_size=6), st.lists(step, min_size=8, max_size=30))
 
 
+def enumerate_cases(tier):
+    """every shipped helper module imported as the first thing a history does (an import builds
+    units too, and may be the first creator of some), followed by a few ordinary operations"""
+    out = []
+    for i in range(len(HELPERS)):
+        out.append({"init": [3, 17, 41, 5], "ops": [["helper", i, 0, 2], ["pow", 0, 1, -1], ["pow", 1, 2, -1], ["div", 2, 3, 2], ["str", 0, 0, 2], ["pow", 3, 0, -2]]})
+        out.append({"init": [7, 29, 11], "ops": [["pow", 0, 1, -1], ["helper", i, 0, 2], ["pow", 1, 2, -1], ["mul", 0, 2, 2], ["ratio", 1, 0, 2]]})
+    return out
+
+
 def _dimkind(exps):
     from ..domain import dimkind
 
